@@ -47,6 +47,12 @@ def poly(t, sym):
     return None
 
 
+def _table_visible(ps):
+    """the declared role of the ring is visible on the paths (a discriminant test of the ring itself)"""
+    return any(t[0] == 'discr' and (t[1] == ('load', (SELF, ())) or (t[1][0] == 'upd' and t[1][1] == ('load', (SELF, ()))))
+               for p in ps for t, v in p.cons)
+
+
 def run(ctx):
     F = ctx.facts("default")
     ctx.rule("C16.route", "every public constructor of GenericPolygon passes every ring through close_and_reorder (closing, then "
@@ -144,7 +150,10 @@ def run(ctx):
         ctx.missing("C16.close", "the ring closing/orienting function handed to for_each")
         return
     csite = ctx.site_of(F, cr["def"])
-    ps, _ = util.run_fn(F, cr)
+    # the closedness predicate stays an atom (it is checked on its own below); other pure helpers are followed, not summarised
+    ps, _ = util.run_fn(F, cr, summarise_predicates=True, summarise_pure=True, inline=lambda g, t: True)
+    if not _table_visible(ps):
+        ps, _ = util.run_fn(F, cr, summarise_predicates=True, summarise_pure=False)
     ps = [p for p in ps if p.status == 'return']
     payload = (SELF, (('vp', '0'),))
     # --- close / effects / table ----------------------------------------------------------------
@@ -159,14 +168,16 @@ def run(ctx):
             if t[0] == 'app' and re.sub(r'::<[^<>]*>', '', t[1]) in closed_defs:
                 closed = (v != 0) if isinstance(v, int) else True
             # closedness decided inline: only a full-point equality of first and last counts
-            if t[0] == 'bin' and t[1] in ('Eq', 'Ne') and t[4] == 'partial_eq' and 'first' in absint.term_str(t) and 'last' in absint.term_str(t):
+            ts_ = absint.term_str(t)
+            if t[0] == 'bin' and t[1] in ('Eq', 'Ne') and t[4] == 'partial_eq' and (
+                    ('first' in ts_ and 'last' in ts_) or ('[0]' in ts_ and 'lastidx' in ts_)):
                 tv = (v != 0) if isinstance(v, int) else True
                 closed = tv if t[1] == 'Eq' else (not tv)
             if t[0] == 'ret' and isinstance(t[2], str) and t[2].endswith('PartialEq::eq'):
                 closed = (v != 0) if isinstance(v, int) else True
         nonempty = any(t[0] == 'discr' and t[1][0] == 'first' and v == 1 for t, v in p.cons) or closed is not None
         if closed is None and any(e[0] in ('push', 'mutate') or True for e in p.eff) and \
-                not any(t[0] == 'discr' and t[1][0] in ('first', 'last') and v == 0 for t, v in p.cons):
+                not any(t[0] == 'discr' and t[1][0] in ('first', 'last') and v in (0, ('not', (1,))) for t, v in p.cons):
             close_ok = False
             why_c.append("whether the ring is closed is not decided by `first == last` on this path (atoms: %s)"
                          % [absint.term_str(t)[:50] for t, v in p.cons][:3])
@@ -297,7 +308,7 @@ def run(ctx):
     if not wp:
         ctx.missing("C16.patch", "Multipatch::with_parts")
         return
-    ps, _ = util.run_fn(F, wp[0], inline=lambda g, t: not g["def"].endswith(("::shrink", "::grow")))
+    ps, _ = util.run_fn(F, wp[0], inline=lambda g, t: not g["def"].endswith(("::shrink", "::grow")), summarise_pure=False)
     adt = F.adts.get("record::multipatch::Patch")
     kinds = {v["vi"]: v["name"] for v in adt["variants"]} if adt else {}
     seen = {}
@@ -313,18 +324,23 @@ def run(ctx):
         if not (it and it[0] == 'iter' and it[2] == 'mut'):
             first_loop_ok = False
         for b in lp[3]:
-            kind = None
+            # the kinds this alternative of the body stands for: one variant, or (arms merged with `|`, a helper returning
+            # Option<&mut Vec>) every variant the discriminant tests have not excluded
+            possible = None
             for t, v in b['cons']:
-                if t[0] == 'discr' and isinstance(v, int) and t[1][0] == 'load' and t[1][1][0][0] == 'T' and \
+                if t[0] == 'discr' and t[1][0] == 'load' and t[1][1][0][0] == 'T' and \
                         t[1][1][0][1][0] in ('elemref', 'elem') and not t[1][1][1]:
-                    kind = kinds.get(v)
-            if kind is None:
+                    cur = {kinds.get(v)} if isinstance(v, int) else (set(kinds.values()) - {kinds.get(x) for x in v[1]})
+                    possible = cur if possible is None else (possible & cur)
+            if not possible:
                 continue
             pushes = [e for e in b['eff'] if e[0] == 'push']
             muts = [e for e in b['eff'] if e[0] in ('mutate',) or (e[0] == 'store' and e[1][0][0] == 'T')]
-            good_push = all(e[2][0] == 'load' and e[2][1][1][-1] == ('i', ('int', 0)) and e[1][1][-2:] == (('v', kind), ('f', '0'))
-                            and e[2][1][1][:-1] == e[1][1] for e in pushes)
-            seen.setdefault(kind, []).append((len(pushes), good_push, [m for m in muts if m[0] == 'mutate']))
+            for kind in sorted(possible):
+                good_push = all(e[2][0] == 'load' and e[2][1][1][-1] == ('i', ('int', 0)) and
+                                (e[1][1][-2:] == (('v', kind), ('f', '0')) or e[1][1][-1] == ('vp', '0'))
+                                and e[2][1][1][:-1] == e[1][1] for e in pushes)
+                seen.setdefault(kind, []).append((len(pushes), good_push, [m for m in muts if m[0] == 'mutate']))
     ring_kinds = {'OuterRing', 'InnerRing', 'FirstRing', 'Ring'}
     for vi, name in sorted(kinds.items()):
         alts = seen.get(name, [])
